@@ -1863,8 +1863,13 @@ method or constructor of some type."""
             argnode = self._transformer.lookup_typenode(param.type)
             argnode = self._transformer.resolve_aliases(argnode)
             if isinstance(argnode, ast.Callback):
-                if argnode.gi_name in ('Gio.AsyncReadyCallback', 'GLib.DestroyNotify'):
+                if argnode.gi_name == 'GLib.DestroyNotify':
                     param.scope = ast.PARAM_SCOPE_ASYNC
+                    param.transfer = ast.PARAM_TRANSFER_NONE
+                elif argnode.gi_name == 'Gio.AsyncReadyCallback':
+                    # An explicit (scope) annotation wins over the default
+                    if param.scope is None:
+                        param.scope = ast.PARAM_SCOPE_ASYNC
                     param.transfer = ast.PARAM_TRANSFER_NONE
 
         # Explicit (closure) and (destroy) annotations win over the heuristics below
